@@ -48,6 +48,10 @@ def ops(t):
             R('BSC_open', 1, (1, 0, 0, 0), t, ts), R('VFS_LOOKUP', 1, tid=t, ts=ts + 1, data=B.lookup_chunks(5, '/a/path/of/more/than/24/bytes')[0][0]),
             R('MACH_WAIT', 0, (0x10, 0, 0, 0), t, ts + 2), R('MSC_mach_reply_port', 1, tid=t, ts=ts + 3), R('MSC_mach_reply_port', 2, (7, 0, 0, 0), t, ts + 4),
             R('VFS_LOOKUP', 2, tid=t, ts=ts + 5, data=B.lookup_chunks(5, '/a/path/of/more/than/24/bytes')[1][0]), R('BSC_open', 2, (0, 3, 0, 0), t, ts + 6)],
+        # windows of different classes on one thread that overlap without nesting: fault START | open START | fault END | open END
+        'open-overlapping-a-fault': lambda ts: [
+            R('MACH_vmfault', 1, (0x1000, 1, 0, 0), t, ts), R('BSC_open', 1, (1, 0, 0, 0), t, ts + 1), R('VFS_LOOKUP', 3, tid=t, ts=ts + 2, data=B.lookup_chunks(5, '/ov')[0][0]),
+            R('MACH_vmfault', 2, (0, 0, 0, 2), t, ts + 3), R('BSC_open', 2, (0, 3, 0, 0), t, ts + 4)],
         'image': lambda ts: [R('DYLD_uuid_map_a', 0, (0x11 * t, 0x22, 0x1000 * t, 3), t, ts)],
         'dlopen-500': lambda ts: [R('DBG_DYLD_TIMING_DLOPEN', 1, (0, 500, 1, 0), t, ts), R('DBG_DYLD_TIMING_DLOPEN', 2, (0, 0xbeef, 0, 0), t, ts + 1)],
         'announce-500': lambda ts: [R('TRACE_STRING_GLOBAL', 3, tid=t, ts=ts, data=B.global_string_chunks(0, 500, '/usr/lib/libz')[0][0])],
@@ -358,7 +362,8 @@ class C13(Check):
         """the commutation check on a stream with a very long call, and with class lists that repeat an entry."""
         dup_lists = [(4, 4), (3, 3), (4, 1, 4), (7, 7), (1, 1)]
         streams = [(('open-with-150-nested-traps', 1), ('getpid', 2), ('open+lookup', 1)), (('getpid', 1), ('open-with-150-nested-traps', 2))]
-        for opseq in ((('open+lookup-split-by-foreign-records', 1), ('getpid', 2)), (('getpid', 1), ('open+lookup-split-by-foreign-records', 2), ('open+lookup', 2))):
+        for opseq in ((('open+lookup-split-by-foreign-records', 1), ('getpid', 2)), (('getpid', 1), ('open+lookup-split-by-foreign-records', 2), ('open+lookup', 2)),
+                      (('open-overlapping-a-fault', 1), ('getpid', 2)), (('getpid', 1), ('open-overlapping-a-fault', 2), ('open-overlapping-a-fault', 1))):
             for cfg in [(t, p, c, s) for t in TIDS for p in PROCS for c in class_lists() for s in SUBCLASS_LISTS]:
                 bad = judge_commute(opseq, cfg, False)
                 acc.case(nontrivial=True, transitions=2, state=h64((cfg, 'A+')))
